@@ -646,6 +646,9 @@ func deserialize(data []byte) (interface{}, error) {
 	if err := json.Unmarshal(data, item); err != nil {
 		return nil, err
 	}
+	if item.Pod == nil {
+		return nil, fmt.Errorf("invalid pod record %q", data)
+	}
 	return item, nil
 }
 
